@@ -49,6 +49,8 @@ var HostFuncs = map[string]*Func{
 	"geach":  {Host: "geach", HP: []string{"any", "func"}},
 	// gderef(p, b) dereferences the pointer p and returns [*p, b]; the model treats &e as e
 	"gderef": {Host: "gderef", HP: []string{"any", "any"}},
+	// gset(&name, v): a Go func(p *int64, v int64) that stores v through p (modelled apart, see callHost)
+	"gset": {Host: "gset", HP: []string{"int64", "int64"}},
 }
 
 // TypedNil is a nil Go pointer of a concrete type (an element of the host slice hnilptrs): nil for
@@ -129,6 +131,10 @@ type Cfg struct {
 	TryGroups          int
 	LoopPerIter        bool // loop body scope per iteration (default: one per loop execution)
 	FinallyAfterAbrupt bool // finally also runs when the catch block exits abruptly (default: no)
+	// AddrNoWriteBack: what a Go function stores through `&name` does not reach the variable at all
+	// (default: it is assigned to the name after the call, the way the interpreter's own tests show it).
+	// No scope statement says which; both readings agree that the call binds nothing new
+	AddrNoWriteBack bool
 }
 
 // AllCfgs enumerates the admitted parameterisations, the code's current choice first.
@@ -137,9 +143,14 @@ func AllCfgs() []Cfg {
 	for _, a := range []int{0, 1, 2, 3} {
 		for _, b := range []bool{false, true} {
 			for _, c := range []bool{false, true} {
-				out = append(out, Cfg{a, b, c})
+				out = append(out, Cfg{TryGroups: a, LoopPerIter: b, FinallyAfterAbrupt: c})
 			}
 		}
+	}
+	// the second reading of `&name` arguments last: it only matters to programs that call gset
+	for _, k := range append([]Cfg{}, out...) {
+		k.AddrNoWriteBack = true
+		out = append(out, k)
 	}
 	return out
 }
@@ -255,6 +266,11 @@ func Run(stmts []*N, cfg Cfg, budget int) (out *Outcome) {
 	top := NewScope(nil)
 	top.define("p", &Func{Host: "p"})
 	top.define("pfail", &Func{Host: "pfail"})
+	// pd(tag, args...) logs every argument it received; pd3 and pdi are the same probe with a fixed
+	// and a typed parameter list (the generators call them with matching counts and types only)
+	for _, name := range []string{"pd", "pd3", "pdi"} {
+		top.define(name, &Func{Host: "pd"})
+	}
 	for name, f := range HostFuncs {
 		top.define(name, f)
 	}
@@ -265,6 +281,8 @@ func Run(stmts []*N, cfg Cfg, budget int) (out *Outcome) {
 	// hnilptrs is a Go []*int64 holding three nil pointers: three elements, each nil
 	np := &TypedNil{T: "*int64"}
 	top.define("hnilptrs", &List{E: []interface{}{np, np, np}})
+	// hst is a pointer to a Go struct {F int64; S string; A [2]int64}: fields read and assigned by name
+	top.define("hst", &Map{K: []interface{}{"F", "S", "A"}, V: []interface{}{int64(7), "g", &List{E: []interface{}{int64(1), int64(2)}}}})
 	out.Top = top
 	defer func() {
 		if r := recover(); r != nil {
@@ -401,6 +419,40 @@ func (m *Model) stmt1(s *N, sc *Scope) ctl {
 		for i := 0; i < len(vs) && i < len(s.Ps); i++ {
 			m.defineVar(sc, s.Ps[i], vs[i])
 		}
+		return ok0
+	case "setup":
+		// preparation text that touches nothing the model tracks
+		return ok0
+	case "letderef":
+		// *name = value, where name was bound by `name = &x` to the address of a variable x that is never
+		// used again: the model holds the pointee under the pointer's name (& is transparent)
+		val, c := m.eval(s.Ns[1], sc)
+		if c.s != sNone {
+			return c
+		}
+		if s.Ns[0].K != "id" {
+			m.unspec("assignment through a pointer that is not a plain name")
+		}
+		if _, _, ok := sc.lookup(s.Ns[0].S); !ok {
+			return errc("undefined symbol", false)
+		}
+		m.assign(sc, s.Ns[0].S, val)
+		return ok0
+	case "letmem":
+		// target.S = value (the generators keep both sides free of probes: their order is not stated)
+		val, c := m.eval(s.Ns[1], sc)
+		if c.s != sNone {
+			return c
+		}
+		tgt, c := m.eval(s.Ns[0], sc)
+		if c.s != sNone {
+			return c
+		}
+		mp, ok := tgt.(*Map)
+		if !ok {
+			m.unspec("member assignment on %T", tgt)
+		}
+		mp.set(s.S, val)
 		return ok0
 	case "letidx":
 		val, c := m.eval(s.Ns[2], sc)
@@ -696,10 +748,10 @@ func (m *Model) stmt1(s *N, sc *Scope) ctl {
 		}
 		if call.B {
 			// defer f(a, list...): evaluated like the spread call, at the defer statement
-			if fn.HP != nil || fn.Host != "" {
+			if fn.HP != nil || (fn.Host != "" && fn.Host != "pd") {
 				m.unspec("spread in defer of a host function")
 			}
-			if !fn.VarArg && len(fn.Params) == 0 {
+			if fn.Host == "" && !fn.VarArg && len(fn.Params) == 0 {
 				m.unspec("arguments passed to a parameterless function")
 			}
 			av := make([]interface{}, 0, len(args))
@@ -718,10 +770,10 @@ func (m *Model) stmt1(s *N, sc *Scope) ctl {
 				return errc("call is variadic but last parameter is not a list", false)
 			}
 			av = append(av[:len(av)-1], l.E...)
-			if !fn.VarArg && len(av) < len(fn.Params) {
+			if fn.Host == "" && !fn.VarArg && len(av) < len(fn.Params) {
 				return errc("function wants N arguments", false)
 			}
-			if !fn.VarArg && len(av) > len(fn.Params) {
+			if fn.Host == "" && !fn.VarArg && len(av) > len(fn.Params) {
 				m.unspec("spread list longer than the parameter list")
 			}
 			if fn.VarArg && len(av) < len(fn.Params)-1 {
@@ -939,6 +991,16 @@ func (m *Model) apply(fn *Func, args []interface{}) (interface{}, ctl) {
 	case "pfail":
 		m.out.Trace = append(m.out.Trace, "pfail "+Render(args[0]))
 		return nil, errc("pfail", true)
+	case "pd":
+		parts := make([]string, len(args))
+		for i, a := range args {
+			parts[i] = Render(a)
+		}
+		m.out.Trace = append(m.out.Trace, "pd "+strings.Join(parts, " "))
+		if m.inDeferred > 0 {
+			m.feat("deferred_probe_of_its_arguments_run")
+		}
+		return nil, ok0
 	}
 	if m.depth > 60 {
 		m.unspec("model recursion depth")
@@ -1043,6 +1105,9 @@ func (m *Model) callHost(fn *Func, argExprs []*N, spread bool, sc *Scope) (inter
 	case fn.HV && spread && ne != n:
 		m.unspec("spread call of a variadic function whose list is not in the variadic position")
 	}
+	if fn.Host == "gset" {
+		return m.callGset(argExprs, spread, sc)
+	}
 	typeOf := func(i int) string {
 		if fn.HV && i >= n-1 {
 			return fn.HP[n-1]
@@ -1123,6 +1188,35 @@ func (m *Model) callHost(fn *Func, argExprs []*N, spread bool, sc *Scope) (inter
 	return &List{E: got}, ok0
 }
 
+// callGset models gset(&name, v), a Go func(p *int64, v int64) { *p = v } called with the address of
+// a variable that holds an int: afterwards the name has the value v - an assignment to the name, so
+// it goes to the nearest existing binding - or, under Cfg.AddrNoWriteBack, nothing happened to it.
+func (m *Model) callGset(argExprs []*N, spread bool, sc *Scope) (interface{}, ctl) {
+	if spread || len(argExprs) != 2 || argExprs[0].K != "addr" || argExprs[0].Ns[0].K != "id" {
+		m.unspec("gset called with something else than (&name, value)")
+	}
+	cur, c := m.eval(argExprs[0], sc)
+	if c.s != sNone {
+		return nil, c
+	}
+	if _, ok := cur.(int64); !ok {
+		m.unspec("gset on a variable that does not hold an int")
+	}
+	v, c := m.eval(argExprs[1], sc)
+	if c.s != sNone {
+		return nil, c
+	}
+	if _, ok := v.(int64); !ok {
+		m.unspec("gset of a value that is not an int")
+	}
+	m.step()
+	m.feat("go_function_wrote_through_address_of_name")
+	if !m.cfg.AddrNoWriteBack {
+		m.assign(sc, argExprs[0].Ns[0].S, v)
+	}
+	return nil, ok0
+}
+
 func (m *Model) eval(e *N, sc *Scope) (interface{}, ctl) {
 	m.step()
 	switch e.K {
@@ -1158,12 +1252,21 @@ func (m *Model) eval(e *N, sc *Scope) (interface{}, ctl) {
 			l.E = append(l.E, v)
 		}
 		return l, ok0
-	case "map":
+	case "map", "imap":
+		// {k: v, ...} and map{k: v, ...} (imap: the typed literal with interface keys and values)
 		mp := &Map{}
 		for i := 0; i+1 < len(e.Ns); i += 2 {
 			k, c := m.eval(e.Ns[i], sc)
 			if c.s != sNone {
 				return nil, c
+			}
+			switch k.(type) {
+			case *List, *Map:
+				// a list or a map cannot be a map key: the failure belongs to the key operand, the
+				// operands after it (its value first) are not evaluated
+				m.feat("conversion_error")
+				m.feat("unusable_map_key")
+				return nil, errc("cannot be used as map key", false)
 			}
 			v, c := m.eval(e.Ns[i+1], sc)
 			if c.s != sNone {
@@ -1199,6 +1302,7 @@ func (m *Model) eval(e *N, sc *Scope) (interface{}, ctl) {
 			ck, ok := hostConv(k, "string")
 			if !ok {
 				m.feat("conversion_error")
+				m.feat("unusable_map_key")
 				return nil, errc("cannot use type as map key", false)
 			}
 			v, c := m.eval(e.Ns[i+1], sc)
@@ -1216,6 +1320,12 @@ func (m *Model) eval(e *N, sc *Scope) (interface{}, ctl) {
 	case "addr":
 		// &e: evaluates e once; the pointer itself is transparent to the probes (gderef)
 		m.feat("address_of")
+		return m.eval(e.Ns[0], sc)
+	case "deref":
+		// *name: the pointee, which the model holds under the pointer's name (see letderef)
+		if e.Ns[0].K != "id" {
+			m.unspec("dereference of something that is not a plain name")
+		}
 		return m.eval(e.Ns[0], sc)
 	case "slice":
 		a, c := m.eval(e.Ns[0], sc)
@@ -1417,6 +1527,24 @@ func (m *Model) eval(e *N, sc *Scope) (interface{}, ctl) {
 			return v, ok0
 		}
 		m.unspec("member of %T", a)
+	case "rterr":
+		// an operation that cannot yield a value (Go itself panics on it, or no value of that size
+		// can exist): a runtime error, raised at this point
+		m.feat("runtime_error_inside_interpreter")
+		if len(e.Ps) > 0 {
+			m.feat("runtime_error_" + e.Ps[0])
+		}
+		return nil, errc("runtime error", false)
+	case "mkslice":
+		var zero interface{} = int64(0)
+		if e.S == "string" {
+			zero = ""
+		}
+		l := &List{}
+		for i := int64(0); i < e.I; i++ {
+			l.E = append(l.E, zero)
+		}
+		return l, ok0
 	case "len":
 		a, c := m.eval(e.Ns[0], sc)
 		if c.s != sNone {
